@@ -70,11 +70,14 @@ def classify(ctx, f, g, tree_l, got, ref, text):
     if wide:
         # counterfactual: the same formula on the tree with every node's children beyond index 27 pruned is what the trie sees
         return KF_TRIE if any(q[0] in ("forall", "exists") for q in R2.subformulas(f)) else None
-    before = R2.STATS["empty_domain"]
-    R2.evaluate_ref(f, to_dt(tree_l))
-    if unused_quantified_vars(f) or R2.STATS["empty_domain"] > before:
-        # some tree quantifier ranges over an empty domain (or its variable is unused): the drop-the-quantifier shortcut
-        return KF_FORALL_DROPPED
+    if any(q[0] in ("forall", "exists") for q in R2.subformulas(f)):
+        # repaired twin: with the drop-the-quantifier shortcut of ForallFormula.substitute_expressions patched out, does ISLa
+        # agree with the specification?
+        from islamon import patches
+        with patches.no_forall_drop():
+            alt = isla_eval(ctx, text, to_dt(tree_l), g)
+        if alt == ref:
+            return KF_FORALL_DROPPED
     if any(q[0] == "int_q" for q in R2.subformulas(f)) and got in (True, False):
         return KF_NUMQ
     if any(q[0] in ("forall", "exists") and q[4] for q in R2.subformulas(f)):
